@@ -18,7 +18,7 @@ func init() {
 				"(atomic) after the height marker SetLastHeight is durable Tendermint will not replay the block, so every block-dependent durable write that Commit performs AFTER the marker is a crash window in which that record is lost for good; each such call site is reported. Today five exist (FlushValidators, SaveBlocksTime, SaveVersions, SaveEmission, SavePrice) and are listed in known_findings.json; any other is a violation. " +
 				"(info) Info() reports exactly the persisted hash/height pair. NOT decided: iavl's re-save behaviour on replay, goleveldb durability/fsync, events-DB replay idempotence.",
 			Assumptions: stdAssumptions,
-			Rules:       []string{"C10.order", "C10.savers", "C10.modules", "C10.atomic", "C10.info"},
+			Rules:       []string{"C10.order", "C10.savers", "C10.modules", "C10.atomic", "C10.info", "C10.load"},
 		},
 		Run: runC10,
 	})
@@ -69,7 +69,56 @@ func firstCall(fn *ssa.Function, match func(*core.Site) bool) *core.Site {
 	return nil
 }
 
+// checkRecoveryLoad: after a crash the node must reopen the state at exactly the height it reports
+// to Tendermint (the app-DB height marker): Commit saves the tree version BEFORE it writes the
+// marker, so after a crash in between the tree is one version ahead; loading "the latest version"
+// would replay block h on top of state h. Decided: initState hands AppDB.GetLastHeight() to
+// NewStateV3, NewStateV3 hands its height to tree.NewMutableTree, and NewMutableTree positions the
+// tree with LoadVersion(int64(height)) of that parameter (never Load / LoadVersionForOverwriting of
+// something else).
+func checkRecoveryLoad(c *core.Ctx, rule string) {
+	if init := c.MustFn(rule, "(*coreV2/minter.Blockchain).initState"); init != nil {
+		good := false
+		for _, s := range core.Sites(init) {
+			if s.Callee == core.PkgState+".NewStateV3" {
+				for _, o := range core.Origins(s.Arg(0)) {
+					if call, ok := o.(*ssa.Call); ok && methodNameOfCall(call) == "GetLastHeight" {
+						good = true
+					}
+				}
+			}
+		}
+		c.Check(good, rule, "initState/height", init.Pos(), "the state is opened at AppDB.GetLastHeight()", "the state is not opened at the height the app DB reports")
+	}
+	if ns := c.MustFn(rule, core.PkgState+".NewStateV3"); ns != nil {
+		good := false
+		for _, s := range core.Sites(ns) {
+			if s.Callee == "tree.NewMutableTree" && len(ns.Params) > 0 && core.Unwrap(s.Arg(0)) == ssa.Value(ns.Params[0]) {
+				good = true
+			}
+		}
+		c.Check(good, rule, "NewStateV3/height", ns.Pos(), "NewStateV3 passes its height to tree.NewMutableTree", "NewStateV3 does not open the tree at the height it was given")
+	}
+	if nt := c.MustFn(rule, "tree.NewMutableTree"); nt != nil {
+		nLoad, good := 0, false
+		for _, s := range core.Sites(nt) {
+			mn := methodName(s)
+			if !strings.HasPrefix(mn, "Load") && !strings.HasPrefix(mn, "LazyLoad") {
+				continue
+			}
+			nLoad++
+			if mn == "LoadVersion" {
+				if cv, ok := s.Arg(0).(*ssa.Convert); ok && core.Unwrap(cv.X) == ssa.Value(nt.Params[0]) {
+					good = true
+				}
+			}
+		}
+		c.Check(good && nLoad == 1, rule, "NewMutableTree/LoadVersion", nt.Pos(), "the tree is positioned with LoadVersion(int64(height)) of the requested height only", "tree.NewMutableTree no longer loads exactly the requested version: after a crash between SaveVersion and the height marker the node would run on a newer state than it reports")
+	}
+}
+
 func runC10(c *core.Ctx) {
+	defer checkRecoveryLoad(c, "C10.load")
 	commit := c.MustFn("C10.order", "(*coreV2/minter.Blockchain).Commit")
 	if commit == nil {
 		return
